@@ -15,6 +15,7 @@ from ..ref import quat as rq
 PROP = "C01"
 LEVEL = "exploration"
 SHARDS = {"quick": 2, "thorough": 16}
+THOROUGH_DEPTH = 5      # thorough tier = this many times the base thorough budget (VERIF_DEPTH overrides)
 RULE = ("cases = (p, q, v): unit quaternions drawn per region (generic Haar, pure, real, axis-aligned, "
         "denormal component, tiny angle, near half-turn, near-antipodal pair p~-q), v finite over 12 decades; "
         "each case drives all 17 routes; non-trivial = q is not +-identity; distinct = hash of route+input bytes")
